@@ -335,7 +335,9 @@ func (k Keeper) ConvertGasFeesToUsdc(ctx sdk.Context, baseCurrency string, addre
 			continue
 		}
 
-		tokenOutAmount, err := k.amm.InternalSwapExactAmountIn(ctx, address, address, pool, tokenIn, baseCurrency, math.ZeroInt(), math.LegacyZeroDec())
+		// run the conversion on a cache context so that a failed swap leaves no partial effects
+		cacheCtx, write := ctx.CacheContext()
+		tokenOutAmount, err := k.amm.InternalSwapExactAmountIn(cacheCtx, address, address, pool, tokenIn, baseCurrency, math.ZeroInt(), math.LegacyZeroDec())
 		if err != nil {
 			// Continue as we can swap it when this amount is higher
 			if err == ammtypes.ErrTokenOutAmountZero {
@@ -349,8 +351,12 @@ func (k Keeper) ConvertGasFeesToUsdc(ctx sdk.Context, baseCurrency string, addre
 				})
 				continue
 			}
-			return sdk.Coins{}, err
+			// any other failure (e.g. an oracle price missing for the pool) must not fail block processing:
+			// the fees stay where they are and are converted in a later block
+			ctx.Logger().Error("Failed to convert fees to usdc (skipping conversion) for denom: "+tokenIn.Denom, "error", err)
+			continue
 		}
+		write()
 
 		// Swapped USDC coin
 		swappedCoins := sdk.NewCoins(sdk.NewCoin(baseCurrency, tokenOutAmount))
